@@ -37,10 +37,17 @@ def dump_block(b):
 def run_block_ops(desc, ops):
     b = mk_block(desc)
     outs = []
+    run_block_ops.validate_mismatch = None
     for op in ops:
         try:
             if op[0] == 'validate':
                 outs.append(bool(b.validate(op[1], op[2])))
+                if op[2] >= 1 and run_block_ops.validate_mismatch is None and desc['kind'] != 'default':
+                    # the first sentence of the property, on the block's OWN current contents (whatever the history was)
+                    populated = set(k for k, _ in dump_block(b))
+                    want = all(op[1] + i in populated for i in range(op[2]))
+                    if outs[-1] != want:
+                        run_block_ops.validate_mismatch = (len(outs) - 1, outs[-1], want)
             elif op[0] == 'get':
                 outs.append(as_nat_list(b.getValues(op[1], op[2])))
             elif op[0] == 'set':
@@ -129,7 +136,12 @@ def check_block_cases(ctx, rep, cases):
         accepted = any(o is True or (isinstance(o, list) and o) for o in outs)
         rep.case(case, nontrivial=accepted, tag='block-' + desc['kind'])
         rep.sample(case, cap=3)
+        vm = run_block_ops.validate_mismatch
         rep.compare(case, {'outs': outs, 'dump': dump}, {'outs': ans['outs'], 'dump': ans['dump']}, 'block ops vs Model.Store')
+        if vm is not None:
+            rep.violation('validate(address, count) does not accept exactly the ranges whose cells are all populated (the block\'s own '
+                          'contents at that point of the history)', case, op_index=vm[0], impl=vm[1], populated_says=vm[2])
+            continue
         # property oracle: on the in-scope prefix the real block must behave like the partial map
         so = ans['spec_outs']
         for i, s in enumerate(so):
